@@ -11,6 +11,8 @@ VALUES = [
     "map-get((k: v), k)", "if(true, yes, no)", "not true", "1 < 2", "1 == 1px", "null", "true", "calc(1px + 2%)", "calc(1px + 2px)",
     "min(1px, 2px)", "max(1, 2, 3)", "percentage(0.25)", "round(2.5)", "ceil(1.2px)", "abs(-3)", "url(foo.png)", "a/b", "1/2/3",
     "math.$pi", "math.sqrt(2)", "math.pow(2, 10)", "string.index(\"abc\", \"c\")", "$v", "$v * 2", "#{$v}px", "\"#{1 + 1}x\"",
+    "foo(1px, $b: 2)", "translate($x: 1px)", "foo($a: 1, $b: c)", "bar(a b, $k: \"q\")", "baz(1,)", "foo(bar($x: 1))",
+    "foo(1px + 1px, $b: 1 + 1)", "var(--c, )", "-x-fn(1, $y: 2px)", "foo(a, b)", "foo()",
     "inspect((a: 1, b: 2))", "type-of(1px)", "unit(3em)", "unitless(3)", "comparable(1px, 1in)", "1in + 1px", "1cm + 1mm",
 ]
 BAD_VALUES = ["$undefined", "1px + 1s", "nth(a b, 5)", "map-get(1, k)", "math.div(1px)", "1 +", "(", "foo(", "#{", "1 % 0 %",
